@@ -127,3 +127,142 @@ Example C08_nonvacuous :
   process_content [x05; x01; xaa] (Err 3) (nd 1 100) = Ok (PC_Raw [xaa]) /\
   process_content [x05; x00; xaa] (Err 3) (nd 1 100) = Err E_SSZ.
 Proof. vm_compute. repeat split; reflexivity. Qed.
+
+(* ======================================================================================================================
+   FINDCONTENT END TO END ACROSS BOTH NODES, AND THE CONTENT LOOKUP (Model/EndToEnd.v second part, Proofs/EndToEnd.v).
+   [find_content_exchange] chains: the serving node's handle_find_content (above) and, for a connection-id reply, what its
+   goroutine writes to the uTP stream (encode_utp_content with the version the SERVER derives, C15 / C19); an ARBITRARY
+   transport [deliver] on those bytes; the requester's processContent (process_content above) and, on the connection-id branch,
+   decode_utp_content with the version the REQUESTER derives.  On top of it: ContentLookup (Model/Lookup.v, C10) with
+   [peer_answer] = the requester-side processing of whatever a peer sent, and the callers of ContentLookup.
+   WHERE VALIDATION SITS (portalwire/portal_protocol.go ContentLookup / contentLookupWorker, history/history_network.go,
+   portalwire/api.go, beacon/beacon_network.go, beacon/portal_api.go):
+     - ContentLookup itself does NOT validate: the first content answer wins (CAS + cancel), C10_content_first_wins;
+     - history GetBlockHeader / GetBlockBody / GetReceipts call ValidateContent on the lookup's result BEFORE decoding, Put and
+       return: C08_network_getters_validate (any peers, any transport, any schedule).  Consequence of "first answer, then
+       validate": one peer answering first with bad content makes the getter fail although other peers hold the content
+       (C08_getter_fails_on_bad_first_answer) - there is no retry with the remaining peers;
+     - JSON-RPC portal_*GetContent (RecursiveFindContent), portal_*TraceGetContent (TraceContentLookup) and the beacon network's
+       getContent return the lookup's result UNVALIDATED: C08_api_get_content_unvalidated / _not_genuine_refuted.
+       (The state network has no network getter; its ValidationOracle reads headers through portal_historyGetContent and
+       re-binds them to the requested hash itself, C02_oracle_bound; the beacon light client verifies what it reads, C12.)
+   Purely compositional over models that are each tied to the code by their own correspondence runs (C08, C10, C02, C15,
+   C19); no new harness lines.  STILL ABSTRACT: uTP (the function deliver; honest transport = identity), discv5 delivery of
+   the TALKREQ / TALKRESP pair, ENR encoding of the records (reply_records hands the requester the server's records), the
+   libraries of C02 / C03, goroutines (the lookup's schedule is universally quantified in C10). *)
+From Shisui Require Import Model.Versions Model.Lookup Model.History Model.ContentFull Model.EndToEnd
+     Proofs.Lookup Proofs.History Proofs.ContentFull Proofs.EndToEnd.
+
+(* (a) held content, honest transport: exactly the stored bytes arrive, inline iff they fit one packet, else over uTP; for
+   every version value the two sides share (0: unframed; 1: varint-framed) *)
+Theorem C08_findcontent_end_to_end : forall nodelist srt server requester content v connid enrs_ssz deliver,
+  nlen connid = 2 -> short content ->
+  deliver (encode_utp_content v content) = encode_utp_content v content ->
+  find_content_exchange nodelist srt server requester (St_Found content) (Ok v) (Ok v) connid enrs_ssz deliver =
+    Ok (FR_Content content (negb (nlen content <=? findcontent_max_payload))).
+Proof. exact findcontent_end_to_end. Qed.
+Print Assumptions C08_findcontent_end_to_end.
+
+(* ... with the versions each side derives from the other's ENR on first contact (C19_two_nodes_compose: they agree) *)
+Theorem C08_findcontent_end_to_end_negotiated :
+  forall va vb cx cy nx ny nodelist srt server requester content connid enrs_ssz deliver v,
+  cx ny = None -> cy nx = None -> version_at_receiver va vb cy nx = Ok v ->
+  nlen connid = 2 -> short content -> (forall w, deliver w = w) ->
+  find_content_exchange nodelist srt server requester (St_Found content)
+      (version_at_offerer va vb cx ny) (version_at_receiver va vb cy nx) connid enrs_ssz deliver =
+    Ok (FR_Content content (negb (nlen content <=? findcontent_max_payload))).
+Proof. exact findcontent_end_to_end_negotiated. Qed.
+Print Assumptions C08_findcontent_end_to_end_negotiated.
+
+(* the inline branch involves neither the transport nor the versions *)
+Theorem C08_findcontent_inline_any_transport : forall nodelist srt server requester content vs vr connid enrs_ssz deliver,
+  nlen content <= findcontent_max_payload ->
+  find_content_exchange nodelist srt server requester (St_Found content) vs vr connid enrs_ssz deliver = Ok (FR_Content content false).
+Proof. exact findcontent_inline_any_transport. Qed.
+Print Assumptions C08_findcontent_inline_any_transport.
+
+(* (c) not held: what the requester keeps (C11 acceptance) of the server's reply (C08 list) is a sub-list, in the server's
+   order = closest first, of the server's 32 table entries nearest the content; no repeated ids; never the requester (the
+   server removes it - the requester's own filter has no such test); valid, relay-safe, port above 1024 *)
+Theorem C08_findcontent_enrs_end_to_end : forall cid srt, is_sort cid srt ->
+  forall nodelist server requester vs vr connid enrs_ssz deliver, NoDup (map rid nodelist) ->
+  exists enrs accepted,
+    handle_find_content nodelist srt (rid requester) St_NotFound = Ok (FC_Enrs enrs) /\
+    find_content_exchange nodelist srt server requester St_NotFound vs vr connid enrs_ssz deliver = Ok (FR_Nodes accepted) /\
+    accepted = filter_nodes server enrs None /\
+    subseq accepted enrs /\ nlen enrs <= 32 /\
+    sorted_by_b cid accepted = true /\
+    NoDup (map rid accepted) /\
+    forall r, In r accepted ->
+      In r nodelist /\ In r (firstn 32 (srt nodelist)) /\ rid r <> rid requester /\
+      rvalid r = true /\ relay_ok (rflags server) (rflags r) = true /\ 1024 < rport r.
+Proof. exact findcontent_enrs_end_to_end. Qed.
+Print Assumptions C08_findcontent_enrs_end_to_end.
+
+(* (b) ARBITRARY peers and transport.  What ContentLookup returns is the processed answer of ONE queried peer (resp, records,
+   stream of every peer: arbitrary functions) - nothing is checked there *)
+Theorem C08_lookup_result_is_a_peer_answer : forall target self tbl U ver resp dec_enrs sender stream s c,
+  let cans := fun p => peer_answer ver (resp p) (dec_enrs p) (sender p) (stream p) in
+  incl tbl U -> (forall p x, In (Some x) (cnodes cans p) -> In x U) ->
+  creachable (xkey target) cans tbl self s -> finished (xkey target) tbl (base s) ->
+  content_result s = Some c ->
+  exists p utp, In p (qlog (base s)) /\
+    request_find_content ver (resp p) (dec_enrs p) (sender p) (stream p) = Ok (FR_Content c utp).
+Proof. exact lookup_result_is_a_peer_answer. Qed.
+Print Assumptions C08_lookup_result_is_a_peer_answer.
+
+(* the history network's getters over ANY lookup state (hence any set of lying peers, any transport, any schedule): what they
+   return and what they store is the decoding of content bound to the requested hash (C02 genuine, header proofs by C03) *)
+Theorem C08_network_getters_validate : forall B A src s0 hash (s : cl), store_ok (lib_of B A) s0 ->
+  (forall r s' p, history_get_header B A src (lookup_of s) s0 hash = (r, s', p) ->
+     store_ok (lib_of B A) s' /\ Forall (gp (lib_of B A)) p /\
+     forall h, r = Ok h -> exists c, genuine (lib_of B A) (x00 :: hash) c /\ hdr_of (lib_of B A) c = Some h) /\
+  (forall r s' p, history_get_body B A src (lookup_of s) s0 hash = (r, s', p) ->
+     store_ok (lib_of B A) s' /\ Forall (gp (lib_of B A)) p /\
+     forall b, r = Ok b -> exists c, genuine (lib_of B A) (x01 :: hash) c /\ hl_dec_body B c = Some b) /\
+  (forall r s' p, history_get_receipts B A src (lookup_of s) s0 hash = (r, s', p) ->
+     store_ok (lib_of B A) s' /\ Forall (gp (lib_of B A)) p /\
+     forall x, r = Ok x -> exists c, genuine (lib_of B A) (x02 :: hash) c /\ hl_dec_receipts B c = Some x).
+Proof. exact getters_over_lookup_bound. Qed.
+Print Assumptions C08_network_getters_validate.
+
+(* first answer wins, validated or not: a lookup result that fails validation makes the getter fail (ErrInternalError),
+   whatever the other peers hold *)
+Theorem C08_getter_fails_on_bad_first_answer : forall B A src s0 hash (s : cl) c,
+  History.store_get s0 (x00 :: hash) = None -> content_result s = Some c ->
+  history_validate B A src (x00 :: hash) c <> Ok tt -> hacc_ok A ->
+  history_get_header B A src (lookup_of s) s0 hash = (Err E_LOOKUP, s0, []).
+Proof. exact getter_fails_on_bad_first_answer. Qed.
+Print Assumptions C08_getter_fails_on_bad_first_answer.
+
+(* the JSON-RPC GetContent path and the beacon network's getContent: the lookup's result as it is.  For EVERY byte string c
+   there is a drained lookup (one queried peer answering c suffices) on which it returns c ... *)
+Theorem C08_api_get_content_unvalidated : forall c,
+  exists cans tbl self s, creachable (xkey 0) cans tbl self s /\ finished (xkey 0) tbl (base s) /\
+                          api_get_content None s = Some c.
+Proof. exact api_get_content_unvalidated. Qed.
+Print Assumptions C08_api_get_content_unvalidated.
+(* ... in particular content that is not bound to the key, which the network getter refuses on the same lookup *)
+Theorem C08_api_get_content_not_genuine_refuted :
+  exists cans tbl self s c, creachable (xkey 0) cans tbl self s /\ finished (xkey 0) tbl (base s) /\
+    api_get_content None s = Some c /\ ~ genuine (lib_of ex_hlib ex_hacc) ex_header_key c /\
+    fst (fst (history_get_header ex_hlib ex_hacc ex_src (lookup_of s) [] (tl ex_header_key))) = Err E_LOOKUP.
+Proof. exact api_get_content_not_genuine_refuted. Qed.
+Print Assumptions C08_api_get_content_not_genuine_refuted.
+
+(* non-vacuity: 3 bytes inline; 1500 bytes over uTP under versions 0 and 1 (identity transport); a transport that drops the
+   last byte is detected under version 1 and NOT under version 0 (unframed: the requester gets 1499 bytes - validation is the
+   caller's business); mismatching versions; the ENR branch with the requester removed *)
+Example C08_end_to_end_nonvacuous :
+  let nd i sz := mkRec i (1000 + i) 1 30303 sz true in
+  let nodes := [nd 9 300; nd 2 300; nd 5 300; nd 3 300; nd 1 300] in
+  let big := repeat x07 1500 in
+  let fce := find_content_exchange nodes (isort_by 1000) (nd 7 100) (nd 2 100) in
+  fce (St_Found [x01; x02; x03]) (Ok 1) (Ok 1) [xab; xcd] [] (fun w => w) = Ok (FR_Content [x01; x02; x03] false) /\
+  fce (St_Found big) (Ok 1) (Ok 1) [xab; xcd] [] (fun w => w) = Ok (FR_Content big true) /\
+  fce (St_Found big) (Ok 0) (Ok 0) [xab; xcd] [] (fun w => w) = Ok (FR_Content big true) /\
+  fce (St_Found big) (Ok 1) (Ok 1) [xab; xcd] [] (fun w => removelast w) = Err E_INSUFFICIENT /\
+  fce (St_Found big) (Ok 0) (Ok 0) [xab; xcd] [] (fun w => removelast w) = Ok (FR_Content (repeat x07 1499) true) /\
+  fce (St_Found big) (Ok 0) (Ok 1) [xab; xcd] [] (fun w => w) = Err E_LEN_MISMATCH /\
+  fce St_NotFound (Ok 1) (Ok 1) [xab; xcd] [] (fun w => w) = Ok (FR_Nodes [nd 1 300; nd 3 300; nd 5 300]).
+Proof. cbv zeta. repeat match goal with |- _ /\ _ => split end; vm_compute; reflexivity. Qed.
